@@ -483,7 +483,8 @@ def lint(ctx, R, repo):
                 header = []
             else:
                 header.append(n)
-    rejected = {s['s'] for s in d['strings'] if 'Parse for Service' in s['fn']}
+    # the literals the parser compares method names with: in the Parse impl itself or in the (non-generator) helper functions it delegates the check to
+    rejected = {s['s'] for s in d['strings'] if 'Parse for Service' in s['fn'] or (s['fn'] != L.gen_fn and not s['fn'].startswith(L.gen_fn + '/') and s['s'] in needed)}
     R.ob('C17.lint', ('generator', 'reserved names rejected'), bool(needed) and needed <= rejected,
          'every fixed associated fn the templates add to a namespace shared with user methods (%s) is rejected by the parser' % sorted(needed), [], 'rejected literals: %s' % sorted(x for x in rejected if ' ' not in x))
     return n_rep
